@@ -26,7 +26,7 @@ from socket import error as socket_error
 from errno import ECONNRESET, EPIPE
 from io import BytesIO
 
-from gevent.ssl import SSLSocket, SSLError, create_default_context
+from gevent.ssl import SSLSocket, SSLError, SSLContext, PROTOCOL_TLS_CLIENT
 
 from slimta import logging
 from . import ConnectionLost, BadReply
@@ -46,6 +46,22 @@ command_pattern = re.compile(br'^([a-zA-Z]+)\s*$')
 command_arg_pattern = re.compile(br'^([a-zA-Z]+)\s+(.+?)\s*$')
 
 log = logging.getSocketLogger(__name__)
+
+
+def default_client_context():
+    """Returns the TLS context used for outbound connections when none was
+    configured: certificate and host name verification against the system's
+    trust store, like :func:`ssl.create_default_context`. It is built from
+    :mod:`gevent.ssl`, because the standard library's context (which is what
+    ``gevent.ssl.create_default_context()`` returns) performs a handshake that
+    blocks every greenlet of the process and that no timeout can interrupt.
+
+    :rtype: :py:class:`~ssl.SSLContext`
+
+    """
+    context = SSLContext(PROTOCOL_TLS_CLIENT)
+    context.load_default_certs()
+    return context
 
 
 class IO(object):
@@ -104,7 +120,7 @@ class IO(object):
 
     def encrypt_socket_client(self, context=None):
         hostname = self.address[0]
-        context = context or create_default_context()
+        context = context or default_client_context()
         log.encrypt(self.socket, context)
         try:
             self.socket = context.wrap_socket(self.socket,
